@@ -15,6 +15,9 @@ package corr
 //                        accepted reply for its TTL (destination override excepted); ToHops' float = ns/1e6.
 //   wire-ser-latedup     the same for the serial engine WITH a late duplicate (finding F10, fixed by
 //                        feeb434: the stream now has to be clean).
+//   wire-ser-latedirect  the destination's answer to probe j arrives after window j closed, its answer to
+//                        probe j+1 later: in Paris mode hop j+1 must report its own delay (the late SYN-ACK
+//                        acknowledges another probe), never a time measured against another probe's send.
 //   timed-par / timed-ser scripted-driver runs with per-call durations of both real engines vs the Lean timed
 //                        model (result, finish time, send times must agree exactly).
 //   e2e                  runE2eProbeOnce over scripted runs vs Spec.e2eSpec.
@@ -744,7 +747,8 @@ func c05Forms(c drvCfg) (router, dest []replyForm) {
 }
 
 // c05GenWire generates a scripted network for one variant at production scale.
-func c05GenWire(r *hx.RNG, variant string, lateDup bool) c05WireCase {
+func c05GenWire(r *hx.RNG, variant string, late string) c05WireCase {
+	lateDup := late == "dup"
 	ms, us := time.Millisecond, time.Microsecond
 	cfg := genCfg(r, variant)
 	cfg.Min, cfg.Max = 1, 30
@@ -801,6 +805,10 @@ func c05GenWire(r *hx.RNG, variant string, lateDup bool) c05WireCase {
 				dup.Delay = d + time.Duration(r.Range(1, 700))*ms + off()
 				c.Replies[ttl] = append(c.Replies[ttl], dup)
 			}
+			if isDest && r.Chance(1, 8) { // the destination answers first, a router later for the same TTL: the destination reply stays
+				lateR := c05Reply{Delay: d + time.Duration(r.Range(1, 700))*ms + off(), Form: hx.Pick(r, routerForms), From: pickRouter(r, cfg)}
+				c.Replies[ttl] = append(c.Replies[ttl], lateR)
+			}
 			if isDest && d > 8*ms && r.Chance(1, 6) { // a router answers first for the same TTL, the destination later: override
 				early := c05Reply{Delay: time.Duration(r.Range(4, int(d/ms)-1))*ms + off(), Form: hx.Pick(r, routerForms), From: pickRouter(r, cfg)}
 				c.Replies[ttl] = append([]c05Reply{early}, c.Replies[ttl]...)
@@ -828,7 +836,56 @@ func c05GenWire(r *hx.RNG, variant string, lateDup bool) c05WireCase {
 		c.Replies[j] = []c05Reply{first, dup}
 		c.Replies[j+1] = []c05Reply{{Delay: x + time.Duration(r.Range(10, 200))*ms + off(), Form: hx.Pick(r, routerForms), From: pickRouter(r, cfg)}}
 	}
+	if late == "direct" {
+		// the destination is at hop j; its answer to probe j arrives x after window j closed (while the
+		// engine listens for hop j+1), its answer to probe j+1 arrives later. Paris mode: the late
+		// SYN-ACK acknowledges probe j's sequence number, not the last probe's, and is ignored; hop j+1
+		// reports its own delay. Default mode: the late SYN-ACK is credited to probe j+1 (the caveat of
+		// C01: no per-probe identifier), measured against probe j+1's send time.
+		c.Stream = "wire-ser-latedirect"
+		c.WriteDur = 0
+		j := r.Range(cfg.Min, cfg.Max-1)
+		c.DestAt = j
+		for ttl := cfg.Min; ttl <= cfg.Max; ttl++ {
+			delete(c.Replies, ttl)
+			if ttl < j {
+				c.Replies[ttl] = []c05Reply{{Delay: time.Duration(r.Range(4, 300))*ms + off(), Form: hx.Pick(r, routerForms), From: pickRouter(r, cfg)}}
+			}
+		}
+		x := time.Duration(r.Range(5, 400)) * ms
+		lateForms := destForms
+		if cfg.Variant == "tcp-paris" {
+			// a bare RST acknowledges nothing and is credited to the last probe in Paris mode too
+			lateForms = nil
+			for _, f := range destForms {
+				if f.Kind == "synack" || f.Kind == "rstack" {
+					lateForms = append(lateForms, f)
+				}
+			}
+		}
+		c.Replies[j] = []c05Reply{{Delay: c.Timeout + x + off(), Form: hx.Pick(r, lateForms), From: cfg.Target}}
+		c.Replies[j+1] = []c05Reply{{Delay: x + time.Duration(r.Range(10, 900))*ms + off(), Form: hx.Pick(r, destForms), From: cfg.Target}}
+	}
 	return c
+}
+
+// c05DelayOK: the RTT is the scripted delay of a reply to that probe — exactly, in the streams whose
+// replies arrive while the engine is reading; in the late streams a reply can arrive while the serial
+// engine sleeps between two probes and is then read up to one poll interval later (the property's
+// "to within one poll interval"), never earlier than it arrived.
+func c05DelayOK(c c05WireCase, ds map[time.Duration]bool, rtt time.Duration) bool {
+	if ds[rtt] {
+		return true
+	}
+	if c.Stream != "wire-ser-latedup" && c.Stream != "wire-ser-latedirect" {
+		return false
+	}
+	for d := range ds {
+		if d <= rtt && rtt <= d+c.Poll {
+			return true
+		}
+	}
+	return false
 }
 
 func c05AcceptToken(a c05Accept) string {
@@ -878,6 +935,15 @@ func c05JudgeWire(rep *hx.Report, c c05WireCase, o c05WireObs) (line string, fin
 			delays[ttl][rp.Delay] = true
 		}
 	}
+	// a bare RST acknowledges nothing: even in Paris mode it is credited to the last probe (C01's caveat)
+	bareRst := false
+	for _, l := range c.Replies {
+		for _, rp := range l {
+			if rp.Form.Kind == "rst" {
+				bareRst = true
+			}
+		}
+	}
 	for _, a := range o.Accepts {
 		wa, sent := o.WriteAt[a.TTL]
 		switch {
@@ -898,7 +964,10 @@ func c05JudgeWire(rep *hx.Report, c c05WireCase, o c05WireObs) (line string, fin
 			}
 			violate(defect, what)
 			return "", nil
-		case c.Stream != "wire-ser-latedup" && !delays[a.TTL][a.RTT]:
+		case !c05DelayOK(c, delays[a.TTL], a.RTT) && !((c.Stream == "wire-ser-latedirect" || c.Stream == "wire-ser-latedup") && a.Dest && (c.Cfg.Variant == "tcp" || (c.Cfg.Variant == "tcp-paris" && bareRst))):
+			// (a direct TCP reply without a per-probe identifier — any in default mode, a bare RST in Paris
+			// mode — is credited to the last probe: then, and only then, the RTT is not the delay of a
+			// reply to that probe)
 			violate("rtt-not-scripted-delay", fmt.Sprintf("TTL %d: RTT %s is not the scripted delay of any reply to that probe", a.TTL, a.RTT))
 			return "", nil
 		}
@@ -1167,7 +1236,7 @@ func TestC05(t *testing.T) {
 	perVariant := env.Scale(250, 3000)
 	for _, v := range allVariants {
 		for i := 0; i < perVariant; i++ {
-			c := c05GenWire(rng, v, false)
+			c := c05GenWire(rng, v, "")
 			o := c05RunWire(t, c, 0, nil)
 			if line, fin := c05JudgeWire(rep, c, o); fin != nil {
 				js = append(js, judged{line, fin})
@@ -1176,7 +1245,7 @@ func TestC05(t *testing.T) {
 	}
 	for _, v := range []string{"tcp", "tcp-paris"} {
 		for i := 0; i < env.Scale(100, 1500); i++ {
-			c := c05GenWire(rng, v, true)
+			c := c05GenWire(rng, v, hx.Pick(rng, []string{"dup", "dup", "direct"}))
 			o := c05RunWire(t, c, 0, nil)
 			if line, fin := c05JudgeWire(rep, c, o); fin != nil {
 				js = append(js, judged{line, fin})
